@@ -1,8 +1,6 @@
 package graph
 
 import (
-	"fmt"
-
 	v1 "k8s.io/api/core/v1"
 	discoveryV1 "k8s.io/api/discovery/v1"
 	metav1 "k8s.io/apimachinery/pkg/apis/meta/v1"
@@ -350,7 +348,9 @@ func setPlusSecretContent(
 			for idx, file := range plusSecretFiles {
 				content, ok := secret.Data[file.FieldName]
 				if !ok {
-					panic(fmt.Errorf("NGINX Plus Secret did not have expected field %q", file.FieldName))
+					// The Secret was updated and no longer has the expected field: keep the previous content
+					// rather than crash the control plane on an admissible Secret update.
+					continue
 				}
 
 				file.Content = content
